@@ -19,10 +19,10 @@ type literal struct {
 	Text  string
 	Class string // int | float | bool | string | var
 	// int
-	Int     *big.Int // signed mathematical value
-	Plus    bool     // written with '+'
-	NegZero bool     // "-0"
-	Based   bool     // 0x / 0o / 0b prefix
+	Int     *big.Int   // signed mathematical value
+	Plus    bool       // written with '+'
+	NegZero bool       // "-0"
+	Based   bool       // 0x / 0o / 0b prefix
 	Alts    []*big.Int // leading-zero forms: acceptable readings
 	// float
 	Rat       *big.Rat
@@ -533,7 +533,9 @@ func init() {
 				addMid(ref.F8, math.Float64frombits(b), math.Float64frombits(b+1))
 			}
 			sp = append(sp, h.Space{Name: "float-literals-around-rounding-midpoints", Count: uint64(len(mids) * 2),
-				Describe: func(i uint64) interface{} { return fmt.Sprintf("%s literal %s sign %d", mids[i/2].k, trunc(mids[i/2].text, 60), i%2) },
+				Describe: func(i uint64) interface{} {
+					return fmt.Sprintf("%s literal %s sign %d", mids[i/2].k, trunc(mids[i/2].text, 60), i%2)
+				},
 				Run: func(c *h.Ctx, i uint64) {
 					m := mids[i/2]
 					l := literal{Text: m.text, Class: "float", Rat: m.rat}
@@ -559,7 +561,10 @@ func init() {
 			// 3-character strings with a backslash in each position over a small alphabet
 			alpha := []byte{'\\', 'n', 't', 'x', '0', 'u', ' ', '/', 'a', '\''}
 			sp = append(sp, h.Space{Name: "backslash-strings-of-3", Count: 1000,
-				Describe: func(i uint64) interface{} { d := unrank(i, 10, 10, 10); return string([]byte{alpha[d[0]], alpha[d[1]], alpha[d[2]]}) },
+				Describe: func(i uint64) interface{} {
+					d := unrank(i, 10, 10, 10)
+					return string([]byte{alpha[d[0]], alpha[d[1]], alpha[d[2]]})
+				},
 				Run: func(c *h.Ctx, i uint64) {
 					d := unrank(i, 10, 10, 10)
 					s := string([]byte{alpha[d[0]], alpha[d[1]], alpha[d[2]]})
